@@ -1,6 +1,6 @@
 (* C19 -- property theorems about the kernels GENERATED from typhon/retrieval/scores.py (coq/gen/scores.v,
    regenerated on every run) and their list-level wrappers (Model/C19_scores.v). *)
-From Coq Require Import Reals List Permutation ZArith.
+From Coq Require Import Reals List Permutation ZArith Lia.
 From TyphonGen Require Import scores.
 From Typhon Require Import Model.C19_scores Proofs.C19_scores.
 Import ListNotations.
@@ -21,8 +21,83 @@ Proof. exact pinball_zero_iff. Qed.
 Theorem quantile_minimises : forall tau q ys c, 0 < tau < 1 -> ys <> [] -> is_quantile tau q ys ->
   mean_loss tau q ys <= mean_loss tau c ys.
 Proof. exact quantile_minimises_mean. Qed.
-(* Converse (every minimiser is a tau-quantile): NOT proved; checked numerically by exhaustive search over the
-   sample points as candidate constants. *)
+
+(* CONVERSE: a constant c whose mean loss is <= the mean loss of every constant is a tau-quantile of the sample *)
+Theorem minimiser_is_quantile : forall tau c ys, 0 < tau < 1 -> ys <> [] ->
+  (forall c', mean_loss tau c ys <= mean_loss tau c' ys) -> is_quantile tau c ys.
+Proof. exact minimiser_is_quantile_mean. Qed.
+(* ... it is enough that c is not beaten by any SAMPLE POINT (the oracle named in the property) *)
+Theorem minimiser_among_sample_points_is_quantile : forall tau c ys, 0 < tau < 1 -> ys <> [] ->
+  (forall y, In y ys -> mean_loss tau c ys <= mean_loss tau y ys) -> is_quantile tau c ys.
+Proof. exact minimiser_over_sample_is_quantile_mean. Qed.
+(* ... or by c +- delta for the deltas below any eps > 0 (a local minimiser) *)
+Theorem local_minimiser_is_quantile : forall tau c ys eps, 0 < tau < 1 -> ys <> [] -> 0 < eps ->
+  (forall c', Rabs (c' - c) < eps -> mean_loss tau c ys <= mean_loss tau c' ys) -> is_quantile tau c ys.
+Proof. exact local_minimiser_is_quantile_mean. Qed.
+Theorem quantile_iff_minimiser : forall tau c ys, 0 < tau < 1 -> ys <> [] ->
+  (is_quantile tau c ys <-> forall c', mean_loss tau c ys <= mean_loss tau c' ys).
+Proof. exact quantile_iff_minimiser_mean. Qed.
+(* the sub-gradient argument made exact: moving c to c' without passing a sample value changes the total loss by
+   (c' - c) * (#{y < c} - tau n) to the left and (c' - c) * (#{y <= c} - tau n) to the right *)
+Theorem loss_slope_between_samples : forall tau c c' ys,
+  (c' <= c -> (forall y, In y ys -> y < c -> y <= c') ->
+     loss_sum tau c' ys - loss_sum tau c ys = (c' - c) * (cnt_lt c ys - tau * rlen ys)) /\
+  (c <= c' -> (forall y, In y ys -> c < y -> c' <= y) ->
+     loss_sum tau c' ys - loss_sum tau c ys = (c' - c) * (cnt_le c ys - tau * rlen ys)).
+Proof. intros tau c c' ys. split; [exact (loss_left_exact tau c c' ys)|exact (loss_right_exact tau c c' ys)]. Qed.
+(* the minimum over ALL constants is attained at a sample point that is a tau-quantile: the exhaustive search over the
+   sample points finds the minimum *)
+Theorem search_over_sample_points_exact : forall tau ys, 0 < tau < 1 -> ys <> [] ->
+  exists q, In q ys /\ is_quantile tau q ys /\ forall c, mean_loss tau q ys <= mean_loss tau c ys.
+Proof. exact search_over_sample_points_exact_l. Qed.
+
+(* NaN handling (None = NaN): on NaN-free data np.nanmean and np.mean are the arithmetic mean ... *)
+Theorem nanmean_is_mean_when_nan_free : forall l, l <> [] ->
+  nanmean (map Some l) = Some (rmean l) /\ npmean (map Some l) = Some (rmean l).
+Proof. exact nanmean_nan_free. Qed.
+(* ... so mean_quantile_score = nanmean(kernel) is mean_loss on NaN-free samples; on ANY sample NaN observations are
+   dropped, the result is NaN (not an exception) exactly when nothing is left; a NaN estimate or fraction gives NaN *)
+Theorem mean_quantile_score_nan : forall tau c ys,
+  (ys <> [] -> mqs_fl (Some tau) (Some c) (map Some ys) = Some (mean_loss tau c ys)) /\
+  (forall ys', mqs_fl (Some tau) (Some c) ys' = match somes ys' with [] => None | v => Some (mean_loss tau c v) end) /\
+  (forall t ys', mqs_fl t None ys' = None /\ mqs_fl None t ys' = None).
+Proof. intros tau c ys. split; [exact (mqs_fl_nan_free tau c ys)|]. split; [exact (mqs_fl_value tau c)|exact mqs_fl_nan_estimate]. Qed.
+Theorem scores_nan_free : forall s, s <> [] -> mape_fl (nan_free s) = Some (mape s) /\ bias_fl (nan_free s) = Some (bias s).
+Proof. exact scores_fl_nan_free. Qed.
+
+(* vector of taus: for n rows of k estimates, n observations and k fractions the score matrix is n x k, entry (i, j) is
+   the pinball loss of estimate (i, j) against observation i for fraction j, i.e. column j is the pinball loss of
+   column j of the estimates for taus[j] *)
+Theorem score_matrix_columnwise : forall rows ys taus, rect (length ys) (length taus) rows ->
+  rect (length ys) (length taus) (quantile_score_rows rows ys taus) /\
+  (forall i j, (i < length ys)%nat -> (j < length taus)%nat ->
+     nth j (nth i (quantile_score_rows rows ys taus) []) 0
+     = quantile_score_kernel (nth j (nth i rows []) 0) (nth i ys 0) (nth j taus 0)) /\
+  (forall j, (j < length taus)%nat ->
+     col j (quantile_score_rows rows ys taus) = map2 (fun e y => quantile_score_kernel e y (nth j taus 0)) (col j rows) ys).
+Proof. intros rows ys taus H. split; [exact (score_shape rows ys taus H)|].
+  split; [exact (fun i j => score_entry rows ys taus i j H)|exact (fun j => score_column rows ys taus j H)]. Qed.
+(* mean_quantile_score for a vector of constants cs (one per fraction): k entries, entry j = mean loss of cs[j] for taus[j];
+   hence a vector of tau_j-quantiles minimises every entry *)
+Theorem mean_quantile_score_vector_taus : forall cs ys taus, length cs = length taus ->
+  length (mqs_rows (repeat cs (length ys)) ys taus) = length taus /\
+  forall j, (j < length taus)%nat ->
+    nth j (mqs_rows (repeat cs (length ys)) ys taus) 0 = mean_loss (nth j taus 0) (nth j cs 0) ys.
+Proof. intros cs ys taus H. split; [exact (mqs_rows_length _ ys taus)|exact (fun j => mqs_rows_const cs ys taus j H)]. Qed.
+Theorem vector_quantiles_minimise : forall qs cs ys taus j, ys <> [] -> length qs = length taus -> length cs = length taus ->
+  (j < length taus)%nat -> 0 < nth j taus 0 < 1 -> is_quantile (nth j taus 0) (nth j qs 0) ys ->
+  nth j (mqs_rows (repeat qs (length ys)) ys taus) 0 <= nth j (mqs_rows (repeat cs (length ys)) ys taus) 0.
+Proof. exact vector_quantiles_minimise_l. Qed.
+(* flat data (`y_tau.reshape(-1, k)`, `y_test.reshape(n, 1)`): accepted exactly when there is a fraction and
+   len(y_tau) = len(y_test) * k; entry (i, j) is then the pinball loss of y_tau.flat[i * k + j] against y_test.flat[i] *)
+Theorem quantile_score_flat_contract : forall flat ys taus,
+  match quantile_score_flat flat ys taus with
+  | Some M => taus <> [] /\ length flat = (length ys * length taus)%nat /\ rect (length ys) (length taus) M /\
+      forall i j, (i < length ys)%nat -> (j < length taus)%nat ->
+        nth j (nth i M []) 0 = quantile_score_kernel (nth (i * length taus + j) flat 0) (nth i ys 0) (nth j taus 0)
+  | None => taus = [] \/ length flat <> (length ys * length taus)%nat
+  end.
+Proof. exact quantile_score_flat_spec. Qed.
 
 (* shape contract: consistent shapes accepted (n rows), inconsistent ones rejected *)
 Theorem shapes_accepted : forall n m, (0 < n)%Z -> (0 < m)%Z -> quantile_score_shape (n * m) n m = Some n.
@@ -50,10 +125,48 @@ Proof. unfold is_quantile, cnt_lt, cnt_le, rlen. cbn [map rsum].
   repeat (destruct (Rlt_dec _ _); try Lra.lra); repeat (destruct (Rle_dec _ _); try Lra.lra).
   split; [Lra.lra|repeat constructor; Lra.lra]. Qed.
 
+(* non-vacuity of the converse: 2 is not beaten by any constant on {1,2,2,5} (so the hypothesis can be met), while the
+   non-quantile 5 is strictly beaten by 2; the slope hypotheses hold for c = 2, c' = 3/2 and c' = 3 *)
+Example nonvacuous_converse :
+  (forall c', mean_loss 0.5 2 [1; 2; 2; 5] <= mean_loss 0.5 c' [1; 2; 2; 5]) /\
+  mean_loss 0.5 2 [1; 2; 2; 5] < mean_loss 0.5 5 [1; 2; 2; 5] /\
+  (forall y, In y [1; 2; 2; 5] -> y < 2 -> y <= 1.5) /\ (forall y, In y [1; 2; 2; 5] -> 2 < y -> 3 <= y).
+Proof. split; [intros c'; apply quantile_minimises; [Lra.lra|discriminate|exact (proj1 nonvacuous)]|]. split.
+  - unfold mean_loss, loss_sum, rlen. cbn [map rsum]. rewrite !kernel_explicit.
+    repeat (destruct (Rlt_dec _ _); try Lra.lra).
+  - split; intros y [<-|[<-|[<-|[<-|[]]]]]; Lra.lra. Qed.
+(* non-vacuity of the NaN model and of the matrix model: a sample with a NaN, a 2 x 2 case from flat data, a rejected one *)
+Example nonvacuous_nan_rows :
+  nanmean [Some 1; None; Some 3] = Some 2 /\ npmean [Some 1; None; Some 3] = None /\ nanmean [None; None] = None /\
+  rect 2 2 [[1; 2]; [3; 4]] /\ quantile_score_flat [1; 2; 3; 4] [2; 3] [0.9; 0.1] <> None /\
+  quantile_score_flat [1; 2; 3] [2; 3] [0.9; 0.1] = None /\
+  is_quantile (nth 1 [0.9; 0.5] 0) (nth 1 [5; 2] 0) [1; 2; 2; 5].
+Proof. split; [unfold nanmean, rmean, rlen; cbn [somes map rsum]; f_equal; Lra.lra|]. split; [reflexivity|]. split; [reflexivity|].
+  split; [split; [reflexivity|repeat constructor]|]. split.
+  - intros E. pose proof (quantile_score_flat_contract [1; 2; 3; 4] [2; 3] [0.9; 0.1]) as H. rewrite E in H.
+    destruct H as [H|H]; [discriminate|apply H; reflexivity].
+  - split; [|exact (proj1 nonvacuous)].
+    pose proof (quantile_score_flat_contract [1; 2; 3] [2; 3] [0.9; 0.1]) as H.
+    destruct (quantile_score_flat [1; 2; 3] [2; 3] [0.9; 0.1]); [|reflexivity].
+    destruct H as (_ & H & _). cbn [length] in H. lia. Qed.
+
 Print Assumptions pinball_cases.
 Print Assumptions pinball_nonnegative.
 Print Assumptions pinball_zero_iff_equal.
 Print Assumptions quantile_minimises.
+Print Assumptions minimiser_is_quantile.
+Print Assumptions minimiser_among_sample_points_is_quantile.
+Print Assumptions local_minimiser_is_quantile.
+Print Assumptions quantile_iff_minimiser.
+Print Assumptions loss_slope_between_samples.
+Print Assumptions search_over_sample_points_exact.
+Print Assumptions nanmean_is_mean_when_nan_free.
+Print Assumptions mean_quantile_score_nan.
+Print Assumptions scores_nan_free.
+Print Assumptions score_matrix_columnwise.
+Print Assumptions mean_quantile_score_vector_taus.
+Print Assumptions vector_quantiles_minimise.
+Print Assumptions quantile_score_flat_contract.
 Print Assumptions shapes_accepted.
 Print Assumptions shapes_rejected.
 Print Assumptions scores_perfect.
